@@ -46,6 +46,7 @@ package ggql
 //@   props C14
 //@   check panic {C03}
 //@   requires root != nil && root.types != nil && root.dirs != nil
+//@   requires[finite-input] #rd <= #N
 //@   results err
 //@   ensures[restore-types] err != nil ==> root.types == old(root.types)
 //@   ensures[restore-dirs] err != nil ==> root.dirs == old(root.dirs)
